@@ -482,7 +482,16 @@ def w6(F, rep):
         consts = [_dconst(d) for d in vdefs]
         consts = sorted(consts) if all(c is not None for c in consts) else []
         walker = None
-        if consts == [0, 1] and len(vdefs) == 2:
+        vd = flow.describe(b, wt["args"][1])
+        mb = re.match(r"^(?:\w+::)*(?:from|into)\(Ne\(BitAnd\((.*)\), K0\)\)$|^Ne\(BitAnd\((.*)\), K0\)$", vd)
+        if mb:
+            # the bool `fill & mask != 0` converted to an integer is the bit itself
+            sel = mb.group(1) or mb.group(2)
+            if re.match(r"^arg<u8>(#\d+)?, var\((\w+)\)$|^var\((\w+)\), arg<u8>(#\d+)?$", sel):
+                walker = re.search(r"var\((\w+)\)", sel).group(1)
+            else:
+                why.append("the written bit is not `fill & mask != 0` (%s)" % sel)
+        elif consts == [0, 1] and len(vdefs) == 2:
             one_bb = [d[0] for d in vdefs if const_int(op_const(d[3]["op"])) == 1][0]
             sel = None
             for sb in sorted(b.normal_blocks()):
